@@ -13,7 +13,9 @@ from __future__ import annotations
 from hypothesis import strategies as st
 
 from .. import gen
-from ..engine import Hooks, describe_ops, exc_key, op_kind, run_case
+from ..engine import (
+    Hooks, describe_ops, exc_key, observed_phase, op_kind, run_case,
+)
 from ..runner import V
 from ..engine import is_engine_exception as _is_engine_exception
 
@@ -147,7 +149,10 @@ def strategy(tier):
 def check(case, stats):
     cfg = case['config']
     m = M(cfg)
-    res = run_case(case, hooks=m, observers=(m.observe,))
+    ph = observed_phase(cfg)
+    if ph is not None:
+        stats.count('class:observed_run')
+    res = run_case(case, hooks=m, observers=(m.observe,), observed=ph)
     stats.count('outcome:' + str(res.outcome))
     if res.outcome == 'discard':
         return []
